@@ -1,6 +1,6 @@
 (* C16 - only a complete handshake yields a connection; failures name their cause.
    This file only pins statements. *)
-From Amq Require Import Lib.Base Gen.Consts Model.Frames Model.Tune Model.Handshake Proofs.Handshake.
+From Amq Require Import Lib.RsVal Gen.SrcHandshake Proofs.HandshakeSrc Lib.Base Gen.Consts Model.Frames Model.Tune Model.Handshake Proofs.Handshake.
 
 (* for EVERY server behaviour (any events, any frames, any cuts): if the attempt yields a connection then exactly StartOk (chosen mechanism, its response, locale, information), TuneOk (the negotiated values) and Open (virtual host) were sent, in this order and nothing else, and the heartbeat timers run with the announced interval *)
 Theorem C16_connected_only_after_exchange : forall (o : hopts) (evs : list hevent) (tok : N * N * N) (sprops : N) (sent : list csend) (hb : option N), handshake o evs = (Connected tok sprops, sent, hb) -> sent = [start_ok_of o; tune_ok_of tok; SOpen (o_vhost o)] /\ hb = Some (snd tok).
@@ -66,6 +66,10 @@ Proof. exact hang_means_silence. Qed.
 Theorem C16_heartbeat_as_announced : forall (o : hopts) (st : hstate) (f : hframe) (h : N), r_hb (hprocess o st f) = Some h -> exists cm fm : N, In (STuneOk cm fm h) (r_sent (hprocess o st f)).
 Proof. exact heartbeat_started_as_announced. Qed.
 
+(* THE MODEL IS THE SOURCE: HandshakeState::process of src/io_loop/handshake_state.rs as translated from the source text on every run (Gen/SrcHandshake.v, tools/rs2sm.py), applied to ANY handshake state and ANY frame, moves to the state, pushes the methods (in that order), seals the buffer, starts the heartbeat timers with the interval and returns the error that Model/Handshake.v's hprocess says - the function the handshake theorems are about. ext_model states what is assumed of the functions process calls and the translator does not cover: X::try_from(0, frame) accepts the method X on channel 0 and nothing else; make_start_ok / make_open as modelled (compared with the real ones by the handshake drivers); make_tune_ok is Model/Tune.v's (C15_source_is_model). Two units of fuel are enough (Secure re-dispatches to Tune once) *)
+Theorem C16_process_source_is_model : forall (o : hopts) (eo : val) (st : hstate) (f : hframe) (log : list val) (fuel : nat), gen_HandshakeState_process (ext_model o eo) (S (S fuel)) (enc_state eo st) (VC "effects" log) (enc_frame f) = (enc_state eo (r_state (hprocess o st f)), VC "effects" (log ++ enc_effects o (hprocess o st f)), enc_result (hprocess o st f)).
+Proof. exact process_source_is_model. Qed.
+
 (* non-vacuity: the complete exchange with a RabbitMQ-like server *)
 Example C16_example :
   let o := {| o_mech := [80; 76; 65; 73; 78]; o_response := [0; 103; 0; 103]; o_locale := [101; 110];
@@ -93,6 +97,7 @@ Check C16_err_timeout : forall (o : hopts) (st : hstate) (evs : list hevent) (se
 Check C16_no_hang_with_timeout : forall (o : hopts) (evs : list hevent) (st : hstate) (sent : list csend) (hb : option N) (out : houtcome) (sent' : list csend) (hb' : option N), o_timeout o = true -> hrun o st evs sent hb = (out, sent', hb') -> out <> Hang.
 Check C16_hang_means_silence : forall (o : hopts) (evs : list hevent) (st : hstate) (sent : list csend) (hb : option N) (sent' : list csend) (hb' : option N), hrun o st evs sent hb = (Hang, sent', hb') -> Forall (fun ev : hevent => match ev with | HRead _ t => t = HtBlock | HSilence => True end) evs.
 Check C16_heartbeat_as_announced : forall (o : hopts) (st : hstate) (f : hframe) (h : N), r_hb (hprocess o st f) = Some h -> exists cm fm : N, In (STuneOk cm fm h) (r_sent (hprocess o st f)).
+Check C16_process_source_is_model : forall (o : hopts) (eo : val) (st : hstate) (f : hframe) (log : list val) (fuel : nat), gen_HandshakeState_process (ext_model o eo) (S (S fuel)) (enc_state eo st) (VC "effects" log) (enc_frame f) = (enc_state eo (r_state (hprocess o st f)), VC "effects" (log ++ enc_effects o (hprocess o st f)), enc_result (hprocess o st f)).
 
 Print Assumptions C16_connected_only_after_exchange.
 Print Assumptions C16_sent_prefix.
@@ -110,4 +115,5 @@ Print Assumptions C16_err_timeout.
 Print Assumptions C16_no_hang_with_timeout.
 Print Assumptions C16_hang_means_silence.
 Print Assumptions C16_heartbeat_as_announced.
+Print Assumptions C16_process_source_is_model.
 Print Assumptions C16_example.
